@@ -45,6 +45,8 @@ func main() {
 		runCrash(os.Args[2:])
 	case "notify":
 		runNotify(os.Args[2:])
+	case "blocking":
+		runBlocking(os.Args[2:])
 	case "conc":
 		runConc(os.Args[2:])
 	case "flock":
